@@ -139,6 +139,15 @@ pub fn pol_name(p: PolarizationType) -> &'static str {
   }
 }
 
+/// relative bound for "dir_i ∥ c": the statement's 1e-9, plus the rounding the code's own radicand
+/// `arg = ‖(λs/2π)c‖²` necessarily carries when the poling nearly cancels the closing vector: `arg` is a sum of
+/// terms of size (λs|k|/2π)², so its relative error is ~ε(|k|/‖c‖)², and so is that of sin θ_i (negligible —
+/// 1e-14 — unless ‖c‖ ≪ |k|; a case with ‖c‖ = 1.6e-4|k| measured 1.2e-9)
+pub fn par_tol(k_norm: f64, c_norm: f64) -> f64 {
+  let r = k_norm / c_norm;
+  1e-9 + 16.0 * f64::EPSILON * r * r
+}
+
 /// wave vector of a beam computed from first principles: unit direction from the polar angles, index from
 /// `index_along` for the beam's polarization, magnitude n ω / c
 pub fn indep_k(cs: &CrystalSetup, theta: f64, phi: f64, pol: PolarizationType, omega: f64) -> Vector3<f64> {
@@ -296,6 +305,7 @@ fn case(ctx: &mut Ctx, spdc0: &SPDC, cs: &CrystalSetup, lp: f64, ls: f64, ths: f
 
   // (1) Δk = kp − ks − ki − kΛ ẑ
   let dk = raw_vec(delta_k(ws * RAD / S, wi * RAD / S, &signal, &idler, &pump, cs, pp));
+  record(40, "derived/case", cs, &signal, &pump, &idler, pp, ws, wi, dk);
   let expect = kp - ks - ki - zhat * k_lambda;
   let ok = (dk - expect).amax() <= 1e-9 * scale;
   ctx.s("C03.deltak", ok, "dk/definition", &format!("{} got=({:e},{:e},{:e}) want=({:e},{:e},{:e})", what, dk.x, dk.y, dk.z, expect.x, expect.y, expect.z));
@@ -333,7 +343,7 @@ fn case(ctx: &mut Ctx, spdc0: &SPDC, cs: &CrystalSetup, lp: f64, ls: f64, ths: f
   if c.z > 0.0 {
     ctx.count("idler/closing/forward");
     let cross = di.cross(&c).norm();
-    let ok = cross <= 1e-9 * c.norm() && di.dot(&c) > 0.0;
+    let ok = cross <= par_tol(scale, c.norm()) * c.norm() && di.dot(&c) > 0.0;
     ctx.s("C03.idler", ok, &format!("idler/parallel{}", neg), &format!("{} cross_over_norm={:e} theta_i={:e}", what, cross / c.norm(), th_of(&idler)));
     if th_of(&signal) == 0.0 {
       ctx.count("idler/collinear");
@@ -341,10 +351,79 @@ fn case(ctx: &mut Ctx, spdc0: &SPDC, cs: &CrystalSetup, lp: f64, ls: f64, ths: f
     }
     // residual mismatch parallel to the idler
     let res = dk.cross(&di).norm();
-    ctx.s("C03.idler", res <= 1e-9 * c.norm(), &format!("idler/residual-parallel{}", neg), &format!("{} resid_cross={:e} c={:e}", what, res, c.norm()));
+    ctx.s("C03.idler", res <= par_tol(scale, c.norm()) * c.norm(), &format!("idler/residual-parallel{}", neg), &format!("{} resid_cross={:e} c={:e}", what, res, c.norm()));
   } else {
     ctx.count("idler/closing/backward");
   }
+}
+
+// =====================================================================================================================
+// history independence: a sample of earlier calls is re-evaluated at the end of the run, in another order
+// =====================================================================================================================
+struct Call {
+  cs: CrystalSetup,
+  signal: SignalBeam,
+  pump: PumpBeam,
+  idler: IdlerBeam,
+  pp: PeriodicPoling,
+  ws: f64,
+  wi: f64,
+  dk: Vector3<f64>,
+  tag: String,
+}
+thread_local! {
+  static CALLS: std::cell::RefCell<(usize, Vec<Call>)> = const { std::cell::RefCell::new((0, Vec::new())) };
+}
+/// remember every `stride`-th call (at most 1500 per run)
+fn record(stride: usize, tag: &str, cs: &CrystalSetup, signal: &SignalBeam, pump: &PumpBeam, idler: &IdlerBeam, pp: &PeriodicPoling, ws: f64, wi: f64, dk: Vector3<f64>) {
+  CALLS.with(|c| {
+    let mut c = c.borrow_mut();
+    c.0 += 1;
+    if c.0 % stride == 0 && c.1.len() < 1500 {
+      c.1.push(Call { cs: cs.clone(), signal: signal.clone(), pump: pump.clone(), idler: idler.clone(), pp: pp.clone(), ws, wi, dk, tag: tag.to_string() });
+    }
+  });
+}
+fn same_bits(a: &Vector3<f64>, b: &Vector3<f64>) -> bool {
+  a.x.to_bits() == b.x.to_bits() && a.y.to_bits() == b.y.to_bits() && a.z.to_bits() == b.z.to_bits()
+}
+/// the reported Δk and the derived idler are functions of their arguments: evaluating the recorded calls again
+/// (reverse order, then a shuffled order) must give bit-identical results
+fn replay_history(ctx: &mut Ctx) {
+  let calls = CALLS.with(|c| std::mem::take(&mut c.borrow_mut().1));
+  let n = calls.len();
+  let mut order: Vec<usize> = (0..n).rev().collect();
+  let mut shuffled: Vec<usize> = (0..n).collect();
+  for i in (1..n).rev() {
+    let j = ctx.rng.below(i + 1);
+    shuffled.swap(i, j);
+  }
+  order.extend(shuffled);
+  for k in order {
+    let c = &calls[k];
+    let what = format!(
+      "recorded_by={} {} ws={:e} wi={:e}",
+      c.tag,
+      describe(&c.cs, l_of(&c.pump), l_of(&c.signal), th_of(&c.signal), ph_of(&c.signal), &c.pp),
+      c.ws,
+      c.wi
+    );
+    let dk = raw_vec(delta_k(c.ws * RAD / S, c.wi * RAD / S, &c.signal, &c.idler, &c.pump, &c.cs, &c.pp));
+    ctx.s(
+      "C03.deltak",
+      same_bits(&dk, &c.dk),
+      if same_bits(&dk, &c.dk) { "history/delta_k-reproducible" } else { "history/delta_k-depends-on-earlier-calls" },
+      &format!("{} first=({:e},{:e},{:e}) again=({:e},{:e},{:e})", what, c.dk.x, c.dk.y, c.dk.z, dk.x, dk.y, dk.z),
+    );
+    if let Ok(i) = IdlerBeam::try_new_optimum(&c.signal, &c.pump, &c.cs, &c.pp) {
+      // the recorded idler was derived from exactly these arguments whenever the tag says so
+      if c.tag.starts_with("derived") {
+        let same = i == c.idler;
+        ctx.s("C03.idler", same, if same { "history/idler-reproducible" } else { "history/idler-depends-on-earlier-calls" }, &what);
+      }
+    }
+  }
+  ctx.count(&format!("history/replayed={}", n));
 }
 
 // =====================================================================================================================
@@ -415,7 +494,23 @@ fn check_spdc(ctx: &mut Ctx, spdc: &SPDC, route: &str, hist: &str) {
   let scale = kp.norm();
   // Δk reported by the object = kp − ks − ki − kΛ ẑ with every k from index_along and the PM table's polarizations
   let dk = raw_vec(spdc.delta_k(ws * RAD / S, wi * RAD / S));
+  record(if route.starts_with("scan") { 3 } else { 25 }, &format!("derived/object/{}", route), cs, signal, pump, idler, pp, ws, wi, dk);
   let expect = kp - ks - ki - zhat * k_lambda;
+  // a detuned pair as well (the definition holds for every frequency pair)
+  {
+    let det = 1.0 + 0.02 * (((ws.to_bits() >> 7) % 200) as f64 / 100.0 - 1.0);
+    let (ws2, wi2) = (ws * det, wi * (2.0 - det));
+    let ks2 = indep_k(cs, th_of(signal), ph_of(signal), pol_s, ws2);
+    let ki2 = indep_k(cs, th_of(idler), ph_of(idler), pol_i, wi2);
+    let dk2 = raw_vec(spdc.delta_k(ws2 * RAD / S, wi2 * RAD / S));
+    let e2 = kp - ks2 - ki2 - zhat * k_lambda;
+    ctx.s(
+      "C03.deltak",
+      (dk2 - e2).amax() <= 1e-9 * scale,
+      &sig("dk-definition-detuned"),
+      &format!("{} ws={:e} wi={:e} got=({:e},{:e},{:e}) want=({:e},{:e},{:e})", what, ws2, wi2, dk2.x, dk2.y, dk2.z, e2.x, e2.y, e2.z),
+    );
+  }
   ctx.s(
     "C03.deltak",
     (dk - expect).amax() <= 1e-9 * scale,
@@ -441,7 +536,7 @@ fn check_spdc(ctx: &mut Ctx, spdc: &SPDC, route: &str, hist: &str) {
     let cross = di.cross(&c).norm();
     ctx.s(
       "C03.idler",
-      cross <= 1e-9 * c.norm() && di.dot(&c) > 0.0,
+      cross <= par_tol(scale, c.norm()) * c.norm() && di.dot(&c) > 0.0,
       &sig("parallel"),
       &format!("{} cross_over_norm={:e} theta_i={:e}", what, cross / c.norm(), th_of(idler)),
     );
@@ -449,7 +544,7 @@ fn check_spdc(ctx: &mut Ctx, spdc: &SPDC, route: &str, hist: &str) {
       ctx.s("C03.idler", th_of(idler).sin().abs() <= 1e-9 && th_of(idler).cos() > 0.0, &sig("collinear"), &format!("{} theta_i={:e}", what, th_of(idler)));
     }
     let res = dk.cross(&di).norm();
-    ctx.s("C03.idler", res <= 1e-9 * c.norm(), &sig("residual-parallel"), &format!("{} resid_cross={:e} c={:e}", what, res, c.norm()));
+    ctx.s("C03.idler", res <= par_tol(scale, c.norm()) * c.norm(), &sig("residual-parallel"), &format!("{} resid_cross={:e} c={:e}", what, res, c.norm()));
   }
 }
 
@@ -598,6 +693,144 @@ fn route_session(ctx: &mut Ctx, spdc0: &SPDC, cr: &[CrystalType]) {
   }
 }
 
+/// scans on one thread in which exactly ONE parameter of the setup changes between consecutive calls; after every step
+/// the idler is re-derived and every clause is checked on the resulting setup (signatures `route/scan-<param>/<clause>`)
+fn scan_session(ctx: &mut Ctx, spdc0: &SPDC, cr: &[CrystalType]) {
+  let mut crystal = ctx.rng.pick(cr).clone();
+  let (lp0, ls0) = gen_wavelengths(&mut ctx.rng, &crystal);
+  let pm0 = *ctx.rng.pick(&PMS);
+  let mut spdc = spdc0.clone();
+  spdc.crystal_setup = mk_setup(crystal.clone(), pm0, ctx.rng.range(0.0, std::f64::consts::FRAC_PI_2), ctx.rng.range(0.0, TAU), ctx.rng.range(1e-3, 30e-3), ctx.rng.range(0.0, 100.0), false);
+  let (sg, pu) = mk_beams(pm0, lp0, ls0, ctx.rng.range(0.0, 0.3), ctx.rng.range(0.0, TAU), 100e-6);
+  spdc.signal = sg;
+  spdc.pump = pu;
+  spdc.pp = gen_poling(&mut ctx.rng);
+  let params = ["temperature", "crystal-theta", "crystal-phi", "length", "pm-type", "pump-wavelength", "signal-wavelength", "signal-theta", "signal-phi", "poling-period", "poling-sign", "poling-on-off", "counter-propagation", "crystal-kind"];
+  let mut hist = format!("start:{}:{}", crystal, pm0);
+  let steps = ctx.rng.between(8, 24);
+  // a scan usually sweeps ONE parameter repeatedly (as a user's loop would), sometimes hops between parameters
+  let mut current = *ctx.rng.pick(&params);
+  for step in 0..=steps {
+    if step > 0 {
+      if ctx.rng.below(3) == 0 {
+        current = *ctx.rng.pick(&params);
+      }
+      let (lo, hi) = window(&crystal);
+      match current {
+        "temperature" => spdc.crystal_setup.temperature = (ctx.rng.range(0.0, 100.0) + 273.15) * K,
+        "crystal-theta" => spdc.crystal_setup.theta = ctx.rng.range(0.0, std::f64::consts::FRAC_PI_2) * RAD,
+        "crystal-phi" => spdc.crystal_setup.phi = ctx.rng.range(0.0, TAU) * RAD,
+        "length" => spdc.crystal_setup.length = ctx.rng.range(1e-3, 30e-3) * M,
+        "pm-type" => {
+          let pm = *ctx.rng.pick(&PMS);
+          spdc.crystal_setup.pm_type = pm;
+          spdc.signal.set_polarization(pm.signal_polarization());
+          spdc.pump.set_polarization(pm.pump_polarization());
+        }
+        "pump-wavelength" => {
+          let ls = l_of(&spdc.signal);
+          let lp_max = (ls * hi / (ls + hi)).min(ls / 1.0001);
+          if lp_max > lo * 1.0002 {
+            spdc.pump.set_vacuum_wavelength(ctx.rng.range(lo * 1.0001, lp_max * 0.9999) * M);
+          }
+        }
+        "signal-wavelength" => {
+          let lp = l_of(&spdc.pump);
+          let ls_min = (lp * hi / (hi - lp)).max(lp * 1.0001);
+          if lp < hi / 2.0 && ls_min * 1.0001 < hi {
+            spdc.signal.set_vacuum_wavelength(ctx.rng.range(ls_min * 1.0001, hi * 0.9999) * M);
+          }
+        }
+        "signal-theta" => {
+          let ph = spdc.signal.phi();
+          let th = ctx.rng.range(-0.3, 0.3);
+          spdc.signal.set_angles(ph, th * RAD);
+        }
+        "signal-phi" => {
+          let th = spdc.signal.theta_internal();
+          spdc.signal.set_angles(ctx.rng.range(0.0, TAU) * RAD, th);
+        }
+        "poling-period" => {
+          let neg = matches!(&spdc.pp, PeriodicPoling::On { sign: Sign::NEGATIVE, .. });
+          spdc.pp = pp_on(ctx.rng.log_range(0.3e-6, 1e-3), neg);
+        }
+        "poling-sign" => {
+          if let PeriodicPoling::On { period, sign, .. } = &spdc.pp {
+            spdc.pp = pp_on(*(*period / M), *sign == Sign::POSITIVE);
+          }
+        }
+        "poling-on-off" => {
+          spdc.pp = match &spdc.pp {
+            PeriodicPoling::Off => pp_on(ctx.rng.log_range(0.3e-6, 1e-3), ctx.rng.coin()),
+            _ => PeriodicPoling::Off,
+          }
+        }
+        "counter-propagation" => spdc.crystal_setup.counter_propagation = !spdc.crystal_setup.counter_propagation,
+        _ => {
+          crystal = ctx.rng.pick(cr).clone();
+          let (lp, ls) = gen_wavelengths(&mut ctx.rng, &crystal);
+          spdc.crystal_setup.crystal = crystal.clone();
+          spdc.pump.set_vacuum_wavelength(lp * M);
+          spdc.signal.set_vacuum_wavelength(ls * M);
+        }
+      }
+      hist.push_str(&format!(">{}", current));
+    }
+    match guard(|| IdlerBeam::try_new_optimum(&spdc.signal, &spdc.pump, &spdc.crystal_setup, &spdc.pp)) {
+      Some(Ok(i)) => {
+        spdc.idler = i;
+        let route = if step == 0 { "scan-start".to_string() } else { format!("scan-{}", current) };
+        // keep the detail short: the last 12 steps of the history
+        let tail: Vec<&str> = hist.split('>').collect();
+        let short = tail[tail.len().saturating_sub(12)..].join(">");
+        check_spdc(ctx, &spdc, &route, &short);
+      }
+      _ => ctx.s("C03.idler", false, "route/scan/unexpected-error", &hist),
+    }
+  }
+}
+
+/// configuration (JSON) route with `"idler": "auto"` combined with an auto crystal angle or an auto poling period and a
+/// NON-collinear signal: every clause on the SPDC that `SPDC::from_json` returns
+fn config_auto_case(ctx: &mut Ctx, cr: &[CrystalType]) {
+  let crystal = ctx.rng.pick(cr).clone();
+  let auto_theta = ctx.rng.coin();
+  let pms3 = [PMType::Type1_e_oo, PMType::Type2_e_eo, PMType::Type2_e_oe];
+  let pm = if auto_theta { *ctx.rng.pick(&pms3) } else { *ctx.rng.pick(&PMS) };
+  let (lp, ls) = gen_wavelengths(&mut ctx.rng, &crystal);
+  let r4 = |x: f64| (x * 1e4).round() / 1e4;
+  let ths_deg = r4(match ctx.rng.below(5) {
+    0 => 0.0,
+    1 => -ctx.rng.range(0.1, 10.0),
+    _ => ctx.rng.range(0.1, 10.0),
+  });
+  let json = format!(
+    r#"{{"crystal":{{"kind":"{}","pm_type":"{}","phi_deg":{},"theta_deg":{},"length_um":{},"temperature_c":{}}},
+        "pump":{{"wavelength_nm":{},"waist_um":100,"bandwidth_nm":5,"average_power_mw":1}},
+        "signal":{{"wavelength_nm":{},"phi_deg":{},"theta_deg":{},"waist_um":100,"waist_position_um":"auto"}},
+        "idler":"auto",{} "deff_pm_per_volt":1}}"#,
+    crystal.get_meta().id,
+    pm,
+    r4(ctx.rng.range(0.0, 360.0)),
+    if auto_theta { "\"auto\"".to_string() } else { format!("{}", r4(ctx.rng.range(0.0, 90.0))) },
+    r4(ctx.rng.range(1000.0, 30000.0)),
+    r4(ctx.rng.range(0.0, 100.0)),
+    (lp * 1e12).round() / 1e3,
+    (ls * 1e12).round() / 1e3,
+    r4(ctx.rng.range(0.0, 360.0)),
+    ths_deg,
+    if auto_theta { "" } else { r#""periodic_poling":{"poling_period_um":"auto"},"# }
+  );
+  let route = if auto_theta { "json-idler-auto+theta-auto" } else { "json-idler-auto+poling-auto" };
+  match guard(|| SPDC::from_json(&json)) {
+    Some(Ok(spdc)) => {
+      ctx.count(if th_of(&spdc.signal) == 0.0 { "json/collinear" } else { "json/non-collinear" });
+      check_spdc(ctx, &spdc, route, &format!("json:theta_s_deg={}", ths_deg));
+    }
+    _ => ctx.count(&format!("route/{}/not-ok", route)),
+  }
+}
+
 pub fn run(ctx: &mut Ctx) {
   let cr = crystals();
   let spdc0 = SPDC::default();
@@ -664,6 +897,16 @@ pub fn run(ctx: &mut Ctx) {
   for _ in 0..(ctx.n / 12).max(20) {
     route_session(ctx, &spdc0, &cr);
   }
+  // one-parameter scans on this thread
+  for _ in 0..(ctx.n / 40).max(20) {
+    scan_session(ctx, &spdc0, &cr);
+  }
+  // JSON configurations with idler auto + (crystal angle auto | poling auto) and a non-collinear signal
+  for _ in 0..(ctx.n / 60).max(20) {
+    config_auto_case(ctx, &cr);
+  }
+  // history independence of everything recorded above
+  replay_history(ctx);
   // k_eff, including the assertion on non-positive periods
   for p in [1e-5, 46.5e-6, 0.0, -1e-5, f64::NAN, f64::INFINITY] {
     for neg in [false, true] {
